@@ -4,6 +4,8 @@ package props
 
 import (
 	"fmt"
+	"google.golang.org/protobuf/reflect/protodesc"
+	"google.golang.org/protobuf/types/descriptorpb"
 	"math/rand"
 	"net/url"
 	"os"
@@ -161,6 +163,71 @@ func buildC10Pool() *c10Pool {
 	addGo("client.API", &client_j5pb.API{Packages: []*client_j5pb.Package{{Name: "p", Label: "l"}}})
 	addGo("client.Package", &client_j5pb.Package{Name: "p"})
 
+	// a proto-form Any that holds a message with a proto-form Any of its own (two and three levels)
+	{
+		sinkMD := sink.ct.message("verif.sink.v1.Sink")
+		leafMD := sink.ct.message("verif.sink.v1.Leaf")
+		anyIn := func(inner proto.Message, name string) protoreflect.Message {
+			m := dynamicpb.NewMessage(sinkMD)
+			fd := sinkMD.Fields().ByName(protoreflect.Name(fieldOfKind(sink.model.msg("verif.sink.v1.Sink"), kPbAny)))
+			a := dynamicpb.NewMessage(fd.Message())
+			b, err := proto.MarshalOptions{Deterministic: true}.Marshal(inner)
+			if err != nil {
+				panic("harness: " + err.Error())
+			}
+			a.Set(fd.Message().Fields().ByName("type_url"), protoreflect.ValueOfString("type.googleapis.com/"+name))
+			a.Set(fd.Message().Fields().ByName("value"), protoreflect.ValueOfBytes(b))
+			m.Set(fd, protoreflect.ValueOfMessage(a))
+			return m
+		}
+		leaf := dynamicpb.NewMessage(leafMD)
+		leaf.Set(leafMD.Fields().ByName(protoreflect.Name(fieldOfKind(sink.model.msg("verif.sink.v1.Leaf"), kString))), protoreflect.ValueOfString("deep"))
+		l1 := anyIn(leaf, "verif.sink.v1.Leaf")
+		l2 := anyIn(l1.Interface(), "verif.sink.v1.Sink")
+		l3 := anyIn(l2.Interface(), "verif.sink.v1.Sink")
+		for i, m := range []protoreflect.Message{l2, l3} {
+			pool.items = append(pool.items, &c10Item{name: fmt.Sprintf("nested-any/%d", i+2), md: sinkMD, msg: m.Interface(), env: sink,
+				newMsg: func() protoreflect.Message { return dynamicpb.NewMessage(sinkMD) }})
+		}
+	}
+	// the same generated types once more through a second instance of their descriptors (a dynamic registry
+	// loaded beside the generated code)
+	{
+		gen := (&schema_testpb.FullSchema{}).ProtoReflect().Descriptor().ParentFile()
+		set := &descriptorpb.FileDescriptorSet{}
+		seen := map[string]bool{}
+		var add func(f protoreflect.FileDescriptor)
+		add = func(f protoreflect.FileDescriptor) {
+			if seen[f.Path()] {
+				return
+			}
+			seen[f.Path()] = true
+			for i := 0; i < f.Imports().Len(); i++ {
+				add(f.Imports().Get(i).FileDescriptor)
+			}
+			set.File = append(set.File, protodesc.ToFileDescriptorProto(f))
+		}
+		add(gen)
+		files, err := protodesc.NewFiles(set)
+		if err != nil {
+			panic("harness: reloading the test schema descriptors: " + err.Error())
+		}
+		for _, full := range []string{"test.schema.v1.FullSchema", "test.schema.v1.Bar"} {
+			d, err := files.FindDescriptorByName(protoreflect.FullName(full))
+			if err != nil {
+				panic("harness: " + err.Error())
+			}
+			md := d.(protoreflect.MessageDescriptor)
+			m := dynamicpb.NewMessage(md)
+			if fd := md.Fields().ByName("s_string"); fd != nil {
+				m.Set(fd, protoreflect.ValueOfString("second instance"))
+			}
+			if fd := md.Fields().ByName("bar_id"); fd != nil {
+				m.Set(fd, protoreflect.ValueOfString("second instance"))
+			}
+			pool.items = append(pool.items, &c10Item{name: "second-descriptor-instance/" + full, md: md, msg: m, newMsg: func() protoreflect.Message { return dynamicpb.NewMessage(md) }})
+		}
+	}
 	// types the schema reader rejects, used beside the accepted ones: a failing first use takes the same
 	// path through the cache (placeholder, build, clean-up) as a succeeding one
 	badSrc := map[string]string{
@@ -318,6 +385,17 @@ func c10Trial(c *rt.C, pool *c10Pool, rng *rand.Rand, useGlobal bool, warm *j5co
 	select {
 	case <-done:
 	case <-time.After(120 * time.Second):
+		// stuck or merely slow? five more seconds in which the whole process uses next to no CPU mean that
+		// every goroutine of the trial is blocked for good
+		cpu0 := rt.ProcessCPU()
+		select {
+		case <-done:
+			return
+		case <-time.After(5 * time.Second):
+		}
+		if rt.ProcessCPU()-cpu0 < int64(20*time.Millisecond) {
+			rt.Blocked(fmt.Sprintf("C10 trial (%s codec, %d goroutines): calls on the shared codec have not returned after 125s and the process is idle", mode, nG))
+		}
 		buf := make([]byte, 1<<20)
 		n := runtime.Stack(buf, true)
 		fmt.Fprintf(os.Stderr, "VERIF-WATCHDOG trial did not finish in 120s (inconclusive)\n%s\n", buf[:n])
@@ -458,10 +536,23 @@ func c10HistoryText(all []c10Op, items []*c10Item) string {
 	return sb.String()
 }
 
+// fieldOfKind: name of the first singular field of that kind (model field names carry a counter)
+func fieldOfKind(m *tMsg, kind string) string {
+	for _, f := range m.Fields {
+		if f.Kind == kind && f.Card == "" && f.Group == "" {
+			return f.Name
+		}
+	}
+	panic("harness: no field of kind " + kind + " in " + m.Full)
+}
+
 func runC10(r *rt.Runner) {
 	// the very first use of the package-level codec in this process happens concurrently
 	r.DoAll("global/first-use", func(c *rt.C) {
+		c.Input([]byte("building the C10 pool: every call once alone on a private codec"))
+		c.Budget(40_000_000) // generous CPU allowance; what matters here is the blocked-for-good detection
 		pool := buildC10Pool()
+		c.EndBudget()
 		c10Trial(c, pool, c.Rand(), true, nil, nil)
 		for i := 0; i < 5; i++ {
 			c10Trial(c, pool, c.Rand(), true, nil, nil)
@@ -470,7 +561,10 @@ func runC10(r *rt.Runner) {
 	nb := r.Scale(200, 6000)
 	for b := 0; b < nb; b++ {
 		r.Do(fmt.Sprintf("trials/%d", b), func(c *rt.C) {
+			c.Input([]byte("building the C10 pool: every call once alone on a private codec"))
+			c.Budget(40_000_000)
 			pool := buildC10Pool()
+			c.EndBudget()
 			rng := c.Rand()
 			var warm *j5codec.Codec
 			var warmCache *j5schema.SchemaCache
